@@ -118,6 +118,7 @@ class Machine:
         self.objsize = {}
         self.nonlinear = False      # allow products (ANF polynomials) instead of opaque atoms
         self.hooks = {}             # callee name -> python function(machine, args)
+        self.pmem = {}              # (obj, byte offset) -> Ptr stored there (pointer-typed cells)
         self.force = {}             # (function, ssa id) -> value that replaces the computed one
 
     def new_obj(self, name, size, symbolic=True):
@@ -155,6 +156,16 @@ class Machine:
                 raise Unsupported("store outside object %s at offset %d" % (p.obj, p.off + k))
             self.mem[(p.obj, p.off + k)] = tuple(bits[8 * k:8 * k + 8])
 
+    def store_ptr(self, p, v):
+        """a pointer value stored in memory (8-byte cell)"""
+        if v.obj == "null":
+            self.pmem.pop((p.obj, p.off), None)
+            self.store(p, const_bits(0, 64))
+            return
+        self.pmem[(p.obj, p.off)] = v
+        for k in range(8):
+            self.mem.pop((p.obj, p.off + k), None)
+
     # ------------------------------------------------------------------
     def call(self, fname, args, depth=0):
         f = self.m.funcs.get(fname)
@@ -191,6 +202,14 @@ class Machine:
                     if not isinstance(p, Ptr):
                         raise Unsupported("load through non-pointer in %s" % fname)
                     if i.ty.endswith("*"):
+                        cell = self.pmem.get((p.obj, p.off))
+                        if cell is not None:
+                            env[i.id] = cell
+                            continue
+                        raw = self.load(p, 8)
+                        if is_const(raw) and to_int(raw) == 0:
+                            env[i.id] = Ptr("null", 0)
+                            continue
                         raise Unsupported("pointer load")
                     env[i.id] = self.load(p, i.d["sz"])[:self.width(i.ty)]
                     continue
@@ -200,7 +219,9 @@ class Machine:
                         raise Unsupported("store through non-pointer in %s" % fname)
                     v = self.val(env, i.ops[0], i.d["vty"])
                     if isinstance(v, Ptr):
-                        raise Unsupported("pointer store")
+                        self.store_ptr(p, v)
+                        continue
+                    self.pmem.pop((p.obj, p.off), None)
                     bits = tuple(v) + tuple(ZERO for _ in range(i.d["sz"] * 8 - len(v)))
                     self.store(p, bits)
                     continue
